@@ -180,6 +180,21 @@ def instances(tier, rng):
     return out
 
 
+def spot(tier, rng):
+    """border form on larger grids / paths with the border pattern (and the size variables) pinned"""
+    out = []
+    for n in ((10, 14) if tier == "quick" else (10, 14, 20)):
+        es = [(i, i + 1) for i in range(n - 1)]
+        m = len(es)
+        # x = [size variable] + border flags   (size kind 'var')
+        pats = [[n] + [False] * m, [n - 1] + [False] * m, [n // 2] + [i == n // 2 - 1 for i in range(m)], [1] + [True] * m,
+                [2] + [i % 2 == 1 for i in range(m)], [3] + [i % 2 == 1 for i in range(m)]]
+        for prim in (False, True):
+            out.append(dict(name="spot-path%d/borders/var/pr%d" % (n, prim), fn="borders", form="list", n=n, edges=es, size="var",
+                            primitive=prim, patterns=pats))
+    return out
+
+
 def key_of(d, kind):
     return "%s,%s,primitive=%s,%s" % (d["fn"], d["form"], d.get("primitive", "-"), kind)
 
@@ -196,7 +211,7 @@ def run(tier, only=None):
          "x": "plain form: fresh Booleans same[u,v] <=> group_id[u]==group_id[v] (ids themselves are auxiliary) + size variables; "
               "border form: is_border flags + size variables"},
         ["larger graphs", "GRAPH_DIVISION's meaning inside cspuz_core (interpreted per the docstring; the solver is not available offline)"],
-        E.EXPL, tmo_quick=90, tmo_thorough=300)
+        E.EXPL, tmo_quick=90, tmo_thorough=300, spot=spot)
 
 
 replay = E.generic_replay
